@@ -349,12 +349,17 @@ def unit_ascii(eng, cmd, shape):
         else:
             operand = mk_token(eng, "StringConcatenation", chunks=chunks)
         eng.I["spec"] = spec
+        eng.I["tokens"] = [(t, set(t.attrs)) for t in chunks + [operand]]
         addr = int_input(eng, "addr")
         return run_directive(eng, cmd, [operand], addr)
 
     def post(eng, outcome):
         spec = eng.I["spec"]
         kind, val = outcome
+        # frame: the syntax tree is evaluated once per copy of a repeated body - nothing computed from the state ('.', symbols) may be kept on a token;
+        # only once-only diagnostic flags (booleans) are written there
+        kept = [(t.name, k) for t, before in eng.I["tokens"] for k in t.attrs if k not in before and not isinstance(t.attrs[k], bool)]
+        eng.prove("frame:no-evaluated-value-is-stored-on-the-syntax-tokens%s" % (":" + str(kept) if kept else ""), not kept)
         good0 = z3.And([z3.Not(x[2]) if x[0] == "s" else z3.And(x[2], x[1] >= 0, x[1] < 256) for x in spec]) if spec else z3.BoolVal(True)
         if refused_by_abort(eng, outcome):
             eng.prove("abort-only-when-a-chunk-is-bad", z3.Not(good0))
